@@ -120,6 +120,31 @@ class Cx:
             r = z3.And(z3.Not(n), r)
         return r
 
+    def prod_eq(self, a, b, c):
+        """Obligation a*b == c for leaves a, b (non-finite leaves violate it)."""
+        if not self.finite(a) or not self.finite(b) or isinstance(a, Raised) or isinstance(b, Raised):
+            return z3.BoolVal(False)
+        r = self.t(a) * self.t(b) == (c if isinstance(c, z3.ExprRef) else self.t(c))
+        for leaf in (a, b):
+            n = self.isnan(leaf)
+            if not z3.is_false(n):
+                r = z3.And(z3.Not(n), r)
+        return r
+
+    def quot_eq(self, q, num, den):
+        """Obligation q == num / den with den != 0 (q, den leaves; num a term)."""
+        if not self.finite(q) or not self.finite(den) or isinstance(q, Raised) or isinstance(den, Raised):
+            return z3.BoolVal(False)
+        d = self.t(den)
+        d = z3.ToReal(d) if d.sort() == z3.IntSort() else d
+        n = z3.ToReal(num) if num.sort() == z3.IntSort() else num
+        r = z3.And(d != 0, self.t(q) == n / d)
+        for leaf in (q, den):
+            nn = self.isnan(leaf)
+            if not z3.is_false(nn):
+                r = z3.And(z3.Not(nn), r)
+        return r
+
     def approx(self, leaf, ref, rel=1e-12):
         """Obligation 'leaf equals ref up to a relative error' (used where a float literal such as 0.01 is not exact)."""
         if isinstance(leaf, Raised) or leaf is None or not self.finite(leaf):
@@ -352,9 +377,7 @@ def run_instance(harness, name, params, *, known=(), opts=None, pinned=None):
         if terms:
             allob = z3.And([f for _, f in terms])
             r = ex.check(z3.Not(allob))
-            if r == "unknown":
-                res["inconclusive"].append(f"solver unknown on obligations of path {path_id}")
-            elif r == "sat":
+            if r in ("sat", "unknown"):
                 for lab, f in terms:
                     r2 = ex.check(z3.Not(f))
                     if r2 == "sat":
